@@ -220,6 +220,12 @@ fn verifier_challenges<E: Engine>(
 
 pub fn oracle<E: Engine>(_ctx: &RunCtx, spec: &FsSpec, log: &mut CaseLog) -> Result<(), String> {
     E::reset_case();
+    // prover runs are compared with one another below, so they need a reproducible stream
+    let mut spec = spec.clone();
+    if spec.base.rng == crate::eng::RngSpec::Os {
+        spec.base.rng = crate::eng::RngSpec::ChaCha(spec.base.bulk);
+    }
+    let spec = &spec;
     let t = Triple::<E>::build(&spec.base)?;
     let cfg = t.cfg;
     // prover side, base run
